@@ -373,3 +373,5 @@ def r19_8(cx):
 
 RULES = [('R19.1', r19_1), ('R19.2', r19_2), ('R19.3', r19_3), ('R19.4', r19_4), ('R19.5', r19_5), ('R19.6', r19_6),
          ('R19.7', r19_7), ('R19.8', r19_8)]
+RULES.append(('R19.9', scan_rule(('vouched_time::nfs_voucher::',))))
+FLOORS['R19.9'] = 1
